@@ -61,6 +61,12 @@ def search_unit(repo, scratch, unit, seed, iters=30000):
                 return dict(driver=drv, variant=-1, step=-1, ops='', observed='driver terminated abnormally (rc=%s): %s' % (p.returncode, (p.stderr or '')[-300:]))
     return None
 
+def explore(repo, scratch, driver, seed, iters):
+    exe = build(repo, scratch)
+    p = subprocess.run([exe, driver, 'search', str(seed + 11), str(iters)], capture_output=True, text=True, timeout=3600)
+    f = _parse_fail(p.stdout)
+    return iters, f
+
 def search_counterexample(repo, verif, failure, scratch, seed):
     unit = failure.get('unit') or ''
     return search_unit(repo, scratch, unit, seed)
